@@ -76,7 +76,7 @@ def differ_formula(uni, mode, h1, h2):
             same = F.Rel(t1, t2)
         elif mode == 'reld':
             a, sep, b = k.partition('!!!')
-            same = F.RelD(b if (sep and b) else '!!!', t1, t2)
+            same = F.RelD(a + '\x02' + (b if (sep and b) else '!!!'), t1, t2)
         else:
             same = F.Or(F.Eq(t1, t2), F.Rel(t1, t2))
         ds.append(F.Or(F.Not(F.Iff(F.Atom(p1), F.Atom(p2))), F.And(F.Atom(p1), F.Not(same))))
